@@ -110,6 +110,8 @@ def check_program(r, dtype_name, R):
     try:
         op = b.build(r["prog"])
     except Exception as e:
+        if C01.singular_inverse(r):
+            return []
         return [("build", "building the expression raised %s: %s" % (type(e).__name__, str(e)[:120]))]
     if r["dom"] != r["tgt"]:
         return out
